@@ -546,7 +546,7 @@ func runHistory(c *fw.Case, plan []planEntry, keyType string, code uint64, withI
 // runHistoryProto is runHistory with an explicit protocol configuration.
 func runHistoryProto(c *fw.Case, plan []planEntry, keyType string, code uint64, proto protocol.Protocol, withIETF bool, mode string) {
 	r := c.Rng
-	st := sut.NewStack(proto)
+	st := sut.SharedStack(proto)
 	h := &histCtx{r: r, proto: proto, code: code, keyType: keyType, hasIETF: withIETF}
 	pubs, unpubs := randOpList(r), randOpList(r)
 	actual := &protocol.ResolutionModel{PublishedOperations: pubs, UnpublishedOperations: unpubs}
